@@ -343,7 +343,7 @@ func init() {
 			pg.wReadAt = 0
 			pg.nOps = 40
 			return genParserTrace(r, tier, ptOpts{types: []string{"GSAP"}, pg: pg, classW: []int{40, 50, 10, 0},
-				families: []string{"iid2", "iid3", "iid4", "copyback", "periodic", "runs", "fib", "thue", "debruijn", "zeroheavy"},
+				families: []string{"iid2", "iid3", "iid4", "copyback", "periodic", "runs", "fib", "thue", "debruijn", "zeroheavy", "tandem", "nested", "powers", "powers"},
 				tweak: func(r *RNG, p *ParserSpec) {
 					if r.Chance(0.5) {
 						p.WindowSize = p.BufferSize + r.Intn(4) // clause 2 applies
@@ -369,7 +369,7 @@ func init() {
 			pg.nOps = 30
 			pg.flagsNTL = 0.2
 			return genParserTrace(r, tier, ptOpts{types: []string{"OSAP"}, pg: pg, classW: []int{55, 45, 0, 0},
-				families: []string{"iid2", "iid3", "iid4", "copyback", "periodic", "runs", "fib", "thue", "debruijn"},
+				families: []string{"iid2", "iid3", "iid4", "copyback", "periodic", "runs", "fib", "thue", "debruijn", "tandem", "nested", "powers", "powers"},
 				tweak: func(r *RNG, p *ParserSpec) {
 					if p.BufferSize > 120 {
 						p.BufferSize = 17 + r.Intn(100)
